@@ -270,6 +270,21 @@ pub mod interop {
 	}
 }
 
+/// Verification hook: number of entries currently held by this thread's intern pool.
+#[cfg(jrsonnet_verif)]
+#[must_use]
+pub fn verif_pool_len() -> usize {
+	POOL.with(|pool| pool.borrow().len())
+}
+
+/// Verification hook: reference count of the allocation behind an interned value
+/// (handles + the pool's own reference).
+#[cfg(jrsonnet_verif)]
+#[must_use]
+pub fn verif_strong_count(v: &IBytes) -> u32 {
+	Inner::strong_count(&v.0)
+}
+
 #[must_use]
 pub fn intern_bytes(bytes: &[u8]) -> IBytes {
 	POOL.with(|pool| {
